@@ -458,7 +458,7 @@ func genC01(seed int64, tier string) *Scenario {
 			}
 			op := Op{Kind: "req", Method: m, Path: n, Pos: &p, Async: async}
 			if m == "workspaceSymbol" {
-				op.Arg = []string{"", "g", "f", "A", "x.y", "中"}[r.Intn(6)]
+				op.Arg = []string{"", "g", "f", "A", "x.y", "中", "glong", "glong_abcdefghij", "gl", LongName(300), "cfg.gl", "M:"}[r.Intn(12)]
 			}
 			if m == "rename" {
 				op.Arg = []string{"newName", "", "end", "a b", "中文"}[r.Intn(5)]
